@@ -1,5 +1,7 @@
 #pragma once
 
+#include <set>
+
 /* Liveness analysis */
 
 //#include <crab/cfg/basic_block_traits.hpp>
@@ -38,6 +40,8 @@ private:
   using liveness_map_t = std::unordered_map<basic_block_label_t, binding_t>;
   
   liveness_map_t m_liveness_map;
+  // blocks that contain an unreachable statement
+  std::set<basic_block_label_t> m_unreachable_blocks;
 public:
   liveness_analysis_operations(CFG cfg) : parent_type(cfg) {}
 
@@ -65,8 +69,13 @@ public:
       varset_domain_t kill, gen;
       for (auto &s : boost::make_iterator_range(b.rbegin(), b.rend())) {
 	if (s.is_unreachable()) {
+	  // The statements after unreachable are never executed and
+	  // nothing flows from the successors, but the statements
+	  // before it are executed: keep collecting their uses.
 	  is_unreachable_block = true;
-	  break;
+	  kill = varset_domain_t();
+	  gen = varset_domain_t();
+	  continue;
 	} 
         auto const &live = s.get_live();
         for (auto d :
@@ -79,8 +88,9 @@ public:
           gen += u;
         }
       } // end for
-      if (!is_unreachable_block) {
-	m_liveness_map.insert(std::make_pair(b.label(), binding_t(kill, gen)));
+      m_liveness_map.insert(std::make_pair(b.label(), binding_t(kill, gen)));
+      if (is_unreachable_block) {
+	m_unreachable_blocks.insert(b.label());
       }
     } // end for
   }
@@ -89,8 +99,13 @@ public:
                                   varset_domain_t in) override {
     auto it = m_liveness_map.find(bb_id);
     if (it != m_liveness_map.end()) {
-      in -= it->second.first;
-      in += it->second.second;
+      if (m_unreachable_blocks.count(bb_id) > 0) {
+	// only the uses before the unreachable statement matter
+	in = it->second.second;
+      } else {
+	in -= it->second.first;
+	in += it->second.second;
+      }
     } else {
       // bb_id is unreachable
       in = varset_domain_t::bottom(); // empty set (i.e., no live variables)
